@@ -112,7 +112,7 @@ func TestC13(t *testing.T) {
 
 	g := gen.HTMLInput()
 	p = c.rec.NewPart("rapid_contexts", "rapid: fragment-grammar input / mutated vector / mutated fixture", true, false, "")
-	c.Rapid(p, 8, pick(25000, 700000), func(rt *rapid.T, sh int) ev.Case {
+	c.Rapid(p, 8, pick(80000, 900000), func(rt *rapid.T, sh int) ev.Case {
 		switch rapid.IntRange(0, 2).Draw(rt, "src") {
 		case 0:
 			return ctxCase(gen.Mutate(rt, rapid.SampledFrom(vec).Draw(rt, "vec"), gen.FragHTML))
@@ -122,7 +122,7 @@ func TestC13(t *testing.T) {
 		return ctxCase(g.Draw(rt, "s"))
 	})
 	p = c.rec.NewPart("rapid_prefix", "rapid: s as above, prefix = fragment-grammar text with every '<' removed by construction", true, false, "")
-	c.Rapid(p, 8, pick(25000, 700000), func(rt *rapid.T, sh int) ev.Case {
+	c.Rapid(p, 8, pick(80000, 900000), func(rt *rapid.T, sh int) ev.Case {
 		var s string
 		if rapid.Bool().Draw(rt, "src") {
 			s = gen.Mutate(rt, rapid.SampledFrom(vec).Draw(rt, "vec"), gen.FragHTML)
